@@ -474,12 +474,19 @@ where
             return true;
         }
 
-        let (event, time) = self.future_event_set.fetch_next();
-
-        if self.limit.applies(self.itr + 1, time) {
-            self.future_event_set.add(time, event);
-            return true;
+        // Check the limit against the next event without removing it from the
+        // event set. A paused runtime thus leaves the event set untouched:
+        // neither the order of pending events, nor the lower bound for newly
+        // added events is changed by reaching the limit.
+        if !matches!(self.limit, RuntimeLimit::None) {
+            if let Some(time) = self.future_event_set.next_time() {
+                if self.limit.applies(self.itr + 1, time) {
+                    return true;
+                }
+            }
         }
+
+        let (event, time) = self.future_event_set.fetch_next();
 
         self.itr += 1;
 
